@@ -19,18 +19,22 @@ import (
 var replayBudget = 2 // replays per check run (each costs a package test build)
 
 type replayResult struct {
-	Attempted  bool     `json:"attempted"`
-	Reproduced bool     `json:"reproduced"`
-	Command    string   `json:"command,omitempty"`
-	Output     string   `json:"output,omitempty"`
-	Test       string   `json:"test_source,omitempty"`
-	Why        string   `json:"why_not,omitempty"`
-	Extra      []string `json:"extra_args,omitempty"`
-	Marker     string   `json:"reproduced_if_output_has,omitempty"`
+	Attempted  bool              `json:"attempted"`
+	Reproduced bool              `json:"reproduced"`
+	Command    string            `json:"command,omitempty"`
+	Output     string            `json:"output,omitempty"`
+	Test       string            `json:"test_source,omitempty"`
+	Why        string            `json:"why_not,omitempty"`
+	Extra      []string          `json:"extra_args,omitempty"`
+	Marker     string            `json:"reproduced_if_output_has,omitempty"`
+	Overlay    map[string]string `json:"extra_overlay_files,omitempty"` // repository files replaced for the replay run only
 	full       string
 }
 
 var replayCache = map[string]replayResult{}
+
+// extraOverlay: further files replaced for a replay run (path relative to the repository -> content).
+var extraOverlay map[string]string
 
 func runReplayTest(repo, testSrc string, extra ...string) (res replayResult) {
 	if r, ok := replayCache[testSrc]; ok {
@@ -41,7 +45,7 @@ func runReplayTest(repo, testSrc string, extra ...string) (res replayResult) {
 			replayCache[testSrc] = res
 		}
 	}()
-	res = replayResult{Test: testSrc, Extra: extra}
+	res = replayResult{Test: testSrc, Extra: extra, Overlay: extraOverlay}
 	if replayBudget <= 0 {
 		res.Why = "replay budget of this run used up by earlier violations"
 		return res
@@ -56,7 +60,13 @@ func runReplayTest(repo, testSrc string, extra ...string) (res replayResult) {
 	tf := filepath.Join(dir, "zz_verif_replay_test.go")
 	os.WriteFile(tf, []byte(testSrc), 0o644)
 	abs, _ := filepath.Abs(repo)
-	ov, _ := json.Marshal(map[string]any{"Replace": map[string]string{filepath.Join(abs, "zz_verif_replay_test.go"): tf}})
+	repl := map[string]string{filepath.Join(abs, "zz_verif_replay_test.go"): tf}
+	for rel, content := range extraOverlay {
+		f := filepath.Join(dir, "ov_"+filepath.Base(rel))
+		os.WriteFile(f, []byte(content), 0o644)
+		repl[filepath.Join(abs, rel)] = f
+	}
+	ov, _ := json.Marshal(map[string]any{"Replace": repl})
 	ovf := filepath.Join(dir, "overlay.json")
 	os.WriteFile(ovf, ov, 0o644)
 	args := []string{"test", "-overlay", ovf, "-vet=off", "-count=1", "-timeout", "600s"}
@@ -116,6 +126,7 @@ func cmdReplay(args []string) {
 		fmt.Printf("re-run ./check %s to re-generate and re-discharge the obligation from the current tree\n", rec.Property)
 		os.Exit(1)
 	}
+	extraOverlay = rec.Replay.Overlay
 	r := runReplayTest(*repo, rec.Replay.Test, rec.Replay.Extra...)
 	if rec.Replay.Marker != "" {
 		r.Reproduced = strings.Contains(r.full, "DATA RACE") && strings.Contains(r.full, rec.Replay.Marker)
@@ -469,6 +480,183 @@ func TestVerifReplay(t *testing.T) {
 		if got != ref {
 			t.Fatalf("REPLAY-REPRODUCED: %%s: delivered data differs from the unshifted run", c.name)
 		}
+	}
+}
+`
+
+// C15 replay: bufferpool.go is replaced (overlay, this run only) by a sanitising pool with the
+// same interface - every buffer handed out is tracked; Put of a buffer that is not currently
+// handed out panics ("recycled twice"); recycled buffers are poisoned and quarantined, never
+// reused, and checked at the end to be still all poison ("written after recycling") - and a
+// lossy FEC echo workload with out-of-band messages and closes under traffic is run over it.
+const poolSanitizerSrc = `package kcp
+
+import (
+	"errors"
+	"fmt"
+	"sync"
+	"unsafe"
+)
+
+var errBufferSizeMismatch = errors.New("buffer size mismatch")
+
+var defaultBufferPool = newBufferPool(mtuLimit)
+
+type bufferPool struct {
+	mu         sync.Mutex
+	size       int
+	live       map[unsafe.Pointer]bool
+	quarantine [][]byte
+	violations []string
+}
+
+func newBufferPool(size int) *bufferPool {
+	return &bufferPool{size: size, live: map[unsafe.Pointer]bool{}}
+}
+
+func (bp *bufferPool) Get() []byte {
+	b := make([]byte, bp.size)
+	bp.mu.Lock()
+	bp.live[unsafe.Pointer(&b[0])] = true
+	bp.mu.Unlock()
+	return b
+}
+
+func (bp *bufferPool) Put(buf []byte) error {
+	if cap(buf) != mtuLimit {
+		return errBufferSizeMismatch
+	}
+	buf = buf[:cap(buf)]
+	p := unsafe.Pointer(&buf[0])
+	bp.mu.Lock()
+	defer bp.mu.Unlock()
+	if !bp.live[p] {
+		bp.violations = append(bp.violations, fmt.Sprintf("buffer %p recycled while not handed out (recycled twice, or never acquired)", p))
+		return nil
+	}
+	delete(bp.live, p)
+	for i := range buf {
+		buf[i] = 0xDB
+	}
+	bp.quarantine = append(bp.quarantine, buf)
+	return nil
+}
+
+func (bp *bufferPool) verifReport() []string {
+	bp.mu.Lock()
+	defer bp.mu.Unlock()
+	out := append([]string(nil), bp.violations...)
+	for _, q := range bp.quarantine {
+		for i, c := range q {
+			if c != 0xDB {
+				out = append(out, fmt.Sprintf("buffer %p written after it was recycled (byte %d)", unsafe.Pointer(&q[0]), i))
+				break
+			}
+		}
+	}
+	return out
+}
+`
+
+const poolReplayTest = `package kcp
+
+import (
+	"bytes"
+	"net"
+	"sync/atomic"
+	"testing"
+	"time"
+)
+
+type verifLossyConn struct {
+	net.PacketConn
+	n uint32
+}
+
+func (c *verifLossyConn) WriteTo(p []byte, addr net.Addr) (int, error) {
+	if atomic.AddUint32(&c.n, 1)%5 == 0 {
+		return len(p), nil // every fifth datagram is lost: FEC recovery and retransmission run
+	}
+	return c.PacketConn.WriteTo(p, addr)
+}
+
+func TestVerifReplay(t *testing.T) {
+	corrupt := false
+	for round := 0; round < 3; round++ {
+		lc, err := net.ListenPacket("udp", "127.0.0.1:0")
+		if err != nil {
+			t.Fatal(err)
+		}
+		l, err := ServeConn(nil, 3, 1, &verifLossyConn{PacketConn: lc})
+		if err != nil {
+			t.Fatal(err)
+		}
+		go func() {
+			for {
+				s, err := l.AcceptKCP()
+				if err != nil {
+					return
+				}
+				s.SetNoDelay(1, 10, 2, 1)
+				s.SetOOBHandler(func([]byte) {})
+				go func() {
+					buf := make([]byte, 4096)
+					for {
+						n, err := s.Read(buf)
+						if err != nil {
+							return
+						}
+						s.Write(buf[:n])
+					}
+				}()
+			}
+		}()
+		cc, err := net.ListenPacket("udp", "127.0.0.1:0")
+		if err != nil {
+			t.Fatal(err)
+		}
+		c, err := NewConn4(uint32(100+round), lc.LocalAddr(), nil, 3, 1, true, &verifLossyConn{PacketConn: cc})
+		if err != nil {
+			t.Fatal(err)
+		}
+		c.SetNoDelay(1, 10, 2, 1)
+		c.SetOOBHandler(func([]byte) {})
+		msg := make([]byte, 700)
+		echo := make([]byte, 700)
+		roundEnd := time.Now().Add(5 * time.Second)
+		for i := 0; i < 60 && time.Now().Before(roundEnd); i++ {
+			for k := range msg {
+				msg[k] = byte(i + k)
+			}
+			c.SetDeadline(time.Now().Add(time.Second))
+			if _, err := c.Write(msg); err != nil {
+				break
+			}
+			c.SendOOB([]byte("oob"))
+			got := 0
+			for got < len(msg) {
+				n, err := c.Read(echo[got:])
+				if err != nil {
+					break
+				}
+				got += n
+			}
+			if got == len(msg) && !bytes.Equal(echo, msg) {
+				corrupt = true
+			}
+		}
+		// close under traffic, then out-of-band sends on the closed session
+		go c.Write(msg)
+		c.Close()
+		c.SendOOB([]byte("late"))
+		l.Close()
+		time.Sleep(100 * time.Millisecond)
+	}
+	for _, v := range defaultBufferPool.verifReport() {
+		t.Errorf("REPLAY-REPRODUCED: %%s", v)
+	}
+	if corrupt {
+		t.Errorf("REPLAY-REPRODUCED: echoed data differs from the data written (a buffer was read after recycling)")
 	}
 }
 `
